@@ -22,7 +22,7 @@ Definition tget (t : list (list Z)) (m l : Z) : gres Z :=
 
 Definition shift1 (s : Z) (o : op) : op :=
   match o with OF a b => OF (a+s) (b+s) | OB a b => OB (a+s) (b+s) | ORM i => ORM (i+s) | OWM i => OWM (i+s)
-  | ODM i => ODM (i+s) | OWFM i => OWFM (i+s) | ODFM i => ODFM (i+s) end.
+  | ODM i => ODM (i+s) | OWFM i => OWFM (i+s) | ODFM i => ODFM (i+s) | ORD i => ORD (i+s) | OWD i => OWD (i+s) end.
 Definition shift (s : Z) := map (shift1 s).
 Definition remove_useless_wm (l : list op) := match l with OWM _ :: r => r | _ => l end.
 Definition l1_mem := [OWM 0; OF 0 1; OWFM 2; OF 1 2; OB 2 1; ODFM 2; ORM 0; OWFM 1; OF 0 1; OB 1 0; ODFM 1; ODM 0].
@@ -165,12 +165,13 @@ Theorem revolve_stream_ok : forall N cm fuel opt0 uf ops prev,
 Proof.
   intros N cm fuel opt0 uf ops prev HN Hcm Hcm1 Hgen.
   pose proof (revolve_blk _ _ _ _ _ _ Hgen ltac:(lia) Hcm) as HB.
-  destruct (blk_ok N cm true 0 (N - 1) cm ops HB 0%nat prev init_c init_x) as (acts & c' & x' & lastop & HR & HX & HEx).
+  destruct (blk_ok N cm [] true 0 (N - 1) cm ops HB 0%nat prev init_c init_x) as (acts & c' & x' & lastop & HR & HX & HEx).
   - unfold Entry, init_c, init_x, keys, store_ok, sameset. cbn [n_ r_ snaps fwd wdeps endfwd store rr map length orb].
     replace (0 + (N - 1) + 1) with N by lia. rewrite Z.eqb_refl. cbn [negb].
     repeat match goal with |- _ /\ _ => split end; try lia; try reflexivity; try tauto.
     + constructor.
     + intros p a b; discriminate.
+    + intros p [].
     + intros p [].
   - discriminate.
   - destruct HEx as (Hn & Hr & Hrr & Hf & Hwd & Hwi & Hef & Hst & Hss).
@@ -179,7 +180,7 @@ Proof.
     cbn [store init_x remove] in Hst.
     repeat match goal with |- _ /\ _ => split end; auto; try lia.
     destruct (snaps c') as [|z l] eqn:E; [reflexivity|]. exfalso.
-    assert (Hin : In z (keys x')) by (apply Hss; left; reflexivity).
+    destruct (proj1 (Hss z) (or_introl eq_refl)) as [Hin|[]].
     unfold keys in Hin. rewrite Hst in Hin. exact Hin.
 Qed.
 Print Assumptions revolve_stream_ok.
